@@ -294,6 +294,15 @@ func Run(w Workload, dir string) (res Result) {
 			fail(prop, prop+".no-exit", "exit/"+firstWord(sqlText), map[string]any{"sql": clip(sqlText), "codes": ex})
 			return false
 		}
+		if os.Getenv("VERIF_T3_DEBUG") == "files" {
+			ents, _ := os.ReadDir(filepath.Join(p.Dir, "dbs", "db"))
+			var names []string
+			for _, en := range ents {
+				fi, _ := en.Info()
+				names = append(names, fmt.Sprintf("%s:%d", en.Name(), fi.Size()))
+			}
+			fmt.Fprintf(os.Stderr, "FILES after %q mode=%v: %v\n", firstWord(sqlText)+" "+clip(sqlText), p.Store.DB("db").Mode(), names)
+		}
 		cur := snapshot(p, "db")
 		ps := pageSizeOf(filepath.Join(p.Dir, "dbs", "db"))
 		lp := lockPg(ps)
